@@ -300,6 +300,44 @@ func runC09(r *Run) {
 	} else {
 		r.Bad("R2", "anchor/ComputeClawback", "", "not found")
 	}
+	r.Rule("R18", "OWN.period-lists-come-from-the-schedule-arithmetic: the period lists of a clawback vesting account are what every lock and every clawback is read from. In x/vesting/keeper a store into an account's LockupPeriods / VestingPeriods takes a value produced by DisjunctPeriods (merge), ConjunctPeriods / ComputeClawback (clawback) or the message's own lists (creation) — and by no other Haqq function: a 'hygiene' step that folds elapsed periods after a merge keeps the amounts but re-dates every later event (the folded period carries one length, not the sum), so locked coins unlock early")
+	{
+		allowed := map[string]bool{"DisjunctPeriods": true, "ConjunctPeriods": true, "ComputeClawback": true, "GetLockupPeriods": true, "GetVestingPeriods": true}
+		nPL := 0
+		for _, fn := range P.Funcs {
+			if !pathHasSuffix(fnPkgPath(fn), "x/vesting/keeper") || isTestSupport(P, fn) || fn.Synthetic != "" {
+				continue
+			}
+			idx := map[string]int{}
+			eachInstr(fn, func(in ssa.Instruction) {
+				st, ok := in.(*ssa.Store)
+				if !ok {
+					return
+				}
+				sn, f, ok := fieldOfAddr(st.Addr)
+				if !ok || sn != "ClawbackVestingAccount" || !(f == "LockupPeriods" || f == "VestingPeriods") {
+					return
+				}
+				nPL++
+				idx[f]++
+				bad := ""
+				backSlice(st.Val).Any(func(v ssa.Value) bool {
+					c, ok := v.(*ssa.Call)
+					if !ok {
+						return false
+					}
+					ci := callInfo(c)
+					if ci.Static != nil && isHaqqPath(fnPkgPath(ci.Static)) && !allowed[ci.Name] && namedName(c.Type()) == "Periods" && bad == "" {
+						bad = ci.Name
+					}
+					return false
+				})
+				r.Check(bad == "", "R18", fmt.Sprintf("%s#%s-%d-from-the-schedule-arithmetic", fnID(fn), f, idx[f]), P.Pos(instrPos(in)), "the stored list comes from DisjunctPeriods / ConjunctPeriods / ComputeClawback or the message",
+					"the vesting keeper stores a period list produced by "+bad+" into the account: a rewrite of the list outside the merge / clawback arithmetic can move the dates of future events while every amount stays right")
+			})
+		}
+		r.Floor("R18", "stores into an account's period lists in x/vesting/keeper", nPL, 2)
+	}
 	r.Rule("R17", "FLOW.merge-never-lowers-the-tracked-delegation: a merge (addGrant — reached by the funder's second grant and, through liquid vesting's Redeem, by anybody) re-derives the account's delegation tracking from the staking module's current figures. After a slash those are lower than what left the bank balance; coins lost to slashing stay tracked as delegated (as in the SDK), otherwise the locked amount exceeds what the account can still hold and the funder's clawback of the untouched unvested coins fails with 'insufficient funds'. The DelegatedFree that addGrant stores is therefore the larger (MaxInt) of the amount tracked so far (DelegatedFree + DelegatedVesting) and the current bonded + unbonding amount")
 	if ag, ok := P.FnOK("(x/vesting/keeper.Keeper).addGrant"); ok {
 		okDF, nDF := true, 0
